@@ -314,6 +314,26 @@ void ControlFlowExecutor::execute_match_statement(const ASTNode *node) {
                 "Undefined variable in match expression: " + var_name);
         }
         enum_value = *enum_var;
+
+        // C風enum（関連値を持つバリアントが無いenum）の値は整数として
+        // 運ばれる（関数の戻り値・代入・引数渡しでバリアント名は残らない）。
+        // 変数の宣言型がそのようなenumなら、整数値からメンバー名を引き直す。
+        if (!enum_value.enum_type_name.empty() &&
+            !enum_value.has_associated_value) {
+            const EnumDefinition *plain_def =
+                interpreter_->get_enum_manager()->get_enum_definition(
+                    enum_value.enum_type_name);
+            if (plain_def && !plain_def->has_associated_values) {
+                enum_value.is_enum = true;
+                enum_value.enum_variant.clear();
+                for (const auto &member : plain_def->members) {
+                    if (member.value == enum_value.value) {
+                        enum_value.enum_variant = member.name;
+                        break;
+                    }
+                }
+            }
+        }
     } else if (match_expr->node_type == ASTNodeType::AST_FUNC_CALL) {
         // 関数呼び出しの場合、評価してReturnExceptionから値を取得
         try {
